@@ -12,6 +12,7 @@ import xarray
 from symx import geo
 from symx.core import And, Iff, Not, Or, same, close
 from symx.runner import Case, main_run, replay_file
+from symx.snap import snapshot, unchanged
 from harness import pipeline
 
 PROP = 'C02'
@@ -62,6 +63,7 @@ def _body(ctx, conv, shape, bounds, as_coords, layout, nan_cells=None, mesh_opts
     cv = P.convention
     N = P.ncells
     ctx.note('config', dict(conv=conv, shape=str(shape), bounds=bounds, layout=layout))
+    snap = snapshot(P.ds)
 
     polygons = cv.polygons
     ctx.check(len(polygons) == N, 'one polygon slot per cell (holes keep their slot)')
@@ -101,6 +103,18 @@ def _body(ctx, conv, shape, bounds, as_coords, layout, nan_cells=None, mesh_opts
         ctx.check(And(*oks), 'element n of the flattened variable == value selected by the native index of n')
         if conv == 'shoc_standard':
             ctx.check('u1' not in picked.data_vars, 'variables on another grid are absent from a face selection')
+
+    # the order is a function of the dataset: reading it must not disturb the dataset, and a convention bound
+    # afterwards to the same dataset sees the same cells in the same slots
+    ctx.check(unchanged(P.ds, snap), 'reading geometry / selecting leaves the dataset as it was')
+    cv2 = type(cv)(P.ds)
+    polygons2 = cv2.polygons
+    oks = [len(polygons2) == N]
+    for n in range(N):
+        oks.append((polygons2[n] is None) == (polygons[n] is None))
+        if polygons2[n] is not None and polygons[n] is not None:
+            oks.append(pipeline.ring_matches(geo.poly_coords(polygons2[n]), P.corners(n)))
+    ctx.check(And(*oks), 'a convention bound later to the same dataset reports the same polygons in the same slots')
 
     # the spatial index is built over the full array: tree positions are linear indexes
     tree = cv.strtree
